@@ -59,6 +59,7 @@ func registry() map[string]*Rule {
 		{Name: "NIL2", Floor: 2, Run: ruleNIL2, Doc: "the pointer result of a library function that can return (nil, nil) is nil-tested before it is dereferenced or passed on"},
 		{Name: "IMP1", Floor: 1, Run: ruleIMP1, Doc: "ImportCollection converts decoded JSON objects with NewDocumentOf (verbatim keys), never through Document.Set/SetAll (dotted-path semantics)"},
 		{Name: "BULK1", Floor: 1, Run: ruleBULK1, Doc: "a function that scans and then mutates destructively scans exactly the query it was given (criteria replacement by Where only)"},
+		{Name: "CNT1", Floor: 0, Run: ruleCNT1, Doc: "where Count is answered from the stored counter, the limit is compared with the counter after the skip has been subtracted"},
 	}
 	m := map[string]*Rule{}
 	for _, r := range rules {
@@ -121,8 +122,8 @@ func propertyTable() map[string]*Property {
 		},
 		"C06": {
 			Technique:   tSSA + "index-maintenance dominance, counter-evidence dataflow, key-template analysis of drop/scan bounds",
-			Rules:       []string{"IDX1", "IDX2", "IDX3", "IDX5", "IDX6", "KEY1", "KEY2", "KEY3", "TX2"},
-			Explanation: "Decides structural clauses of C06: every document write/delete is paired with index maintenance over all catalog indexes (IDX1), with old entries taken before user code can mutate the document (IDX2); the counter moves only with evidence and is written back (IDX3); index creation feeds every document into the new index and drop removes through a bound that covers exactly the index's own keys; collection drop goes through the bulk delete and removes the catalog key (IDX5, KEY1-KEY3).",
+			Rules:       []string{"IDX1", "IDX2", "IDX3", "IDX5", "IDX6", "ID2~probe", "KEY1", "KEY2", "KEY3", "TX2"},
+			Explanation: "Decides structural clauses of C06: every document write/delete is paired with index maintenance over all catalog indexes (IDX1), with old entries taken before user code can mutate the document (IDX2); the counter moves only with evidence and is written back (IDX3), and each save is behind a probe of its own key inside the write loop, so a batch repeating an id cannot grow the counter twice for one record (ID2); index creation feeds every document into the new index and drop removes through a bound that covers exactly the index's own keys; collection drop goes through the bulk delete and removes the catalog key (IDX5, KEY1-KEY3).",
 			NotDecided:  "The arithmetic equality Count == number of records over arbitrary histories (IDX3 gives the necessary discipline per site, not the sum).",
 			Assumptions: commonAssumptions,
 		},
@@ -142,8 +143,8 @@ func propertyTable() map[string]*Property {
 		},
 		"C09": {
 			Technique:   tSSA + "immutability dataflow, read-operation transaction rule, callback-loop rules, counter discipline",
-			Rules:       []string{"IMM1", "TX4", "ERR3", "IDX3", "KEY3", "NIL1"},
-			Explanation: "Decides structural clauses of C09: no builder or operation writes to a query/criteria object it was given (IMM1); read operations open read-only transactions or never commit (TX4: they cannot alter the database); ForEach's stop request ends every loop, also behind a sort node (ERR3); the counter Count relies on moves only with evidence (IDX3); FindById reads the key layout Insert writes (KEY3); results of (nil, err) helpers are not dereferenced (NIL1).",
+			Rules:       []string{"IMM1", "TX4", "ERR3", "IDX3", "KEY3", "NIL1", "CNT1"},
+			Explanation: "Decides structural clauses of C09: no builder or operation writes to a query/criteria object it was given (IMM1); read operations open read-only transactions or never commit (TX4: they cannot alter the database); ForEach's stop request ends every loop, also behind a sort node (ERR3); the counter Count relies on moves only with evidence (IDX3); FindById reads the key layout Insert writes (KEY3); results of (nil, err) helpers are not dereferenced (NIL1); in the counter shortcut of Count the limit is applied to the size that remains after the skip (CNT1).",
 			NotDecided:  "Numeric agreement of Count's skip/limit arithmetic with a scan; FindFirst = first element of FindAll; these are value-level.",
 			Assumptions: commonAssumptions,
 		},
